@@ -90,8 +90,13 @@ func c15(c *Ctx) {
 	for len(progs) < n {
 		progs = append(progs, genBPProg(rng))
 	}
+	every := 2
+	if c.Thorough() {
+		every = 1
+	}
+	progs = append(progs, bpSweepProgs(c, every)...)
 	emitPipelineCases(c, progs, []pipeCheck{chkDiff, chkBP, chkBind}, 20, func(p *Prog, ob *Observed) bool {
 		return p.Tags["explicit-bp"] || p.Tags["pressure15"]
 	})
-	c.Out.Plan.Rule = "functions writing the base pointer through each view (BPB/BP/EBP/RBP), through implicit-style outputs, or through the allocator under pressure >= 15 live GP values, crossed with attribute sets {0, NOSPLIT, NOFRAME, NOSPLIT|NOFRAME} and frame sizes {0, >0}; non-trivial = the base pointer is named or pressure reaches 15; distinct by program text"
+	c.Out.Plan.Rule = "functions writing the base pointer through each view (BPB/BP/EBP/RBP), through implicit-style outputs, or through the allocator under pressure >= 15 live GP values, crossed with attribute sets {0, NOSPLIT, NOFRAME, NOSPLIT|NOFRAME} and frame sizes {0, >0}; plus a sweep over the instruction constructors with the base pointer in every general-purpose register position (second output of an exchange, register after a memory destination, ...); non-trivial = the base pointer is named or pressure reaches 15; distinct by program text"
 }
